@@ -125,6 +125,30 @@ def java_cmd(xmx='4g', serial=True, extra_props=None):
     c += ['-cp', f'{TLAJAR}:{CMJAR}', 'tlc2.TLC']
     return c
 
+def spec_digest():
+    """digest of everything under /verif/spec that TLC reads: the result of a design-level run depends on nothing else"""
+    import hashlib, glob
+    d = hashlib.sha256()
+    for fn in sorted(glob.glob(os.path.join(SPEC, '*.tla')) + glob.glob(os.path.join(SPEC, '*.cfg'))):
+        if os.path.basename(fn).startswith('.'): continue
+        d.update(os.path.basename(fn).encode()); d.update(open(fn, 'rb').read())
+    return d.hexdigest()[:24]
+
+def run_tlc_cached(module, cfg, **kw):
+    """run_tlc for design-level runs (no TRACE, no /repo): a successful result is kept under build/cache keyed by the digest of /verif/spec and reused;
+       failures are never cached; VERIF_NOCACHE=1 disables it"""
+    cdir = os.path.join(BUILD, 'cache'); os.makedirs(cdir, exist_ok=True)
+    key = f"tlc-{module}-{cfg}-{kw.get('simulate')}-{kw.get('depth')}-{kw.get('seed')}-{spec_digest()}.json".replace('/', '_')
+    cf = os.path.join(cdir, key)
+    if os.path.exists(cf) and not os.environ.get('VERIF_NOCACHE'):
+        try:
+            r = json.load(open(cf)); r['cached'] = True; return r
+        except Exception: pass
+    r = run_tlc(module, cfg, **kw)
+    if r.get('ok'):
+        tmp = cf + f'.{os.getpid()}'; json.dump({k: r[k] for k in r if k in ('rc', 'out', 'generated', 'distinct', 'ok', 'violated', 'error', 'wall')}, open(tmp, 'w')); os.replace(tmp, cf)
+    return r
+
 _tlc_re_states = re.compile(r'(\d+) states generated, (\d+) distinct states found')
 def run_tlc(module, cfg, workers=1, env=None, timeout=1200, xmx='4g', simulate=None, depth=None, extra=None, cwd=None, metadir=None, coverage=False, dfs=False, seed=None, deadlock=False):
     """Run TLC; returns dict(rc, out, generated, distinct, ok, violated, error)."""
